@@ -215,6 +215,18 @@ func (pe *PE) eval(st *peState, e ast.Expr) Val {
 				return v
 			}
 		}
+		// a package-level table of rune / integer constants (never written: C16.nowrite) is a known sequence
+		if v, isVar := pe.info.Uses[x].(*types.Var); isVar && v.Pkg() != nil && v.Parent() == v.Pkg().Scope() {
+			if _, isSlice := v.Type().Underlying().(*types.Slice); isSlice {
+				if list, ok := pe.constList(x); ok && len(list) > 0 && len(list) <= 256 {
+					var sb strings.Builder
+					for _, c := range list {
+						sb.WriteRune(rune(c))
+					}
+					return Val{K: vStr, S: sb.String()}
+				}
+			}
+		}
 		return Val{}
 	case *ast.SelectorExpr:
 		if base, ok := ast.Unparen(x.X).(*ast.Ident); ok {
